@@ -195,6 +195,9 @@ pub fn explore(cfg: &ExploreCfg, known: &[KnownFinding]) -> (Agg, Vec<Found>, BT
         let results = Arc::try_unwrap(results).ok().unwrap().into_inner().unwrap();
         for (_, o) in results {
             agg.add(&o);
+            for (k, n) in &o.result.stats.known_hits {
+                *known_hits.entry(k.clone()).or_insert(0) += n;
+            }
             if let Some(v) = o.result.violations.first().cloned() {
                 if let Some(k) = match_known(known, &v) {
                     *known_hits.entry(format!("property={} {}", k.property, k.what)).or_insert(0) += 1;
